@@ -179,7 +179,10 @@ func (f *FieldCopyFromGenerator) genPrimitive() *j.Statement {
 					j.Id("obj." + f.ParentIsOptionalEmbedFieldName).Op("=").Id("&" + f.ParentIsOptionalEmbedFullType + "{}"),
 				)
 				g.Id("obj." + f.Name).Op("=").Id("t")
-			})
+			}).Else().If(j.Id("obj." + f.ParentIsOptionalEmbedFieldName).Op("!=").Nil()).Block(
+				// The parent exists already: a null or unknown value resets the field
+				j.Id("obj." + f.Name).Op("=").Id("t"),
+			)
 			return
 		}
 
